@@ -1300,8 +1300,22 @@ lemma expF_lo_nonneg (q : ℚ) : 0 ≤ (expF q).lo := by
 `q − e·ln 2` enclosed via `ln2`, and `exp` monotone. -/
 theorem expQ_sound (q : ℚ) : Mem (Real.exp (q : ℝ)) (expQ q) := by
   unfold expQ
-  split_ifs with h
+  split_ifs with h h2
   · exact expF_sound q
+  · -- q < -800: exp q < e^-800 < 2^-1100
+    have hq : (q : ℝ) < -800 := by exact_mod_cast h2
+    constructor
+    · show ((0 : ℚ) : ℝ) ≤ _
+      simpa using (Real.exp_pos _).le
+    · show _ ≤ ((pow2 (-1100) : ℚ) : ℝ)
+      have hpe : ((pow2 (-1100) : ℚ) : ℝ) = Real.exp (((-1100 : ℤ) : ℝ) * Real.log 2) := by
+        rw [pow2_eq, mul_comm, Real.exp_mul, Real.exp_log two_pos, Real.rpow_intCast]
+        push_cast; rfl
+      rw [hpe]
+      apply Real.exp_le_exp.mpr
+      have := Real.log_two_lt_d9
+      push_cast
+      nlinarith
   · simp only
     generalize (q * (14427 / 10000)).floor = e
     have hr : Mem ((q : ℝ) - ((e : ℚ) : ℝ) * Real.log 2) (sub (ofRat q) (scale (e : ℚ) ln2)) :=
